@@ -562,52 +562,61 @@ Proof.
   destruct x as [|a x]; [now elim Hx|]. destruct sub; reflexivity.
 Qed.
 
-(* for a regular entry the key leads back to the path the file was read from *)
-Lemma key_path sub name :
-  Forall nonempty sub -> plain_md name = true -> note_path (key_of sub name) = path_of sub name.
+(* a loaded name is its stem plus the one extension that was taken off *)
+Lemma stem_md name : has_md_ext name = true -> stem name +++ MD = name.
 Proof.
-  intros Hs Hp. apply String.eqb_eq in Hp. unfold note_path, to_path, key_of, path_of.
+  unfold has_md_ext, stem, strip_md. intros H. apply andb_prop in H as [H _].
+  symmetry. now apply strip_suffix_once_some.
+Qed.
+
+(* for every loaded entry the key leads back to the path the file was read from *)
+Lemma key_path sub name :
+  Forall nonempty sub -> has_md_ext name = true -> note_path (key_of sub name) = path_of sub name.
+Proof.
+  intros Hs Hp. apply stem_md in Hp. unfold note_path, to_path, key_of, path_of.
   rewrite join_snoc. destruct sub as [|x sub]; [exact Hp|].
   rewrite join_nonempty by (congruence || assumption).
   rewrite !sapp_assoc. now rewrite Hp.
 Qed.
 
 Lemma load_node_regular n : forall sub l,
-  Forall nonempty sub -> names_ok_node n = true -> irregular_node sub n = false ->
+  Forall nonempty sub -> names_ok_node n = true ->
   In l (load_node sub n) ->
-  key_from_file_name (l_key l) = l_key l /\ note_path (l_key l) = l_path l.
+  note_path (l_key l) = l_path l.
 Proof.
-  induction n as [name c|name ch IH] using node_ind2; intros sub l Hs Hn Hi; cbn [load_node].
-  - cbn [irregular_node] in Hi. destruct (has_md_ext name && utf8_valid c); [|intros []].
-    cbn in Hi. apply negb_false_iff in Hi. unfold regular_entry in Hi.
-    apply andb_prop in Hi as [Hp Hk]. apply String.eqb_eq in Hk.
-    intros [<-|[]]. cbn [l_key l_path]. split; [exact Hk | now apply key_path].
-  - cbn [names_ok_node irregular_node] in Hn, Hi. apply andb_prop in Hn as [Hn1 Hn2].
+  induction n as [name c|name ch IH] using node_ind2; intros sub l Hs Hn; cbn [load_node].
+  - destruct (has_md_ext name && utf8_valid c) eqn:E; [|intros []].
+    apply andb_prop in E as [Hp _].
+    intros [<-|[]]. cbn [l_key l_path]. now apply key_path.
+  - cbn [names_ok_node] in Hn. apply andb_prop in Hn as [Hn1 Hn2].
     rewrite in_flat_map. intros (x & Hx & Hl).
     rewrite Forall_forall in IH. apply (IH x Hx (sub ++ [name]) l); auto.
     + apply Forall_app. split; [exact Hs|]. constructor; [|constructor].
       intros ->. discriminate.
     + rewrite forallb_forall in Hn2. now apply Hn2.
-    + destruct (irregular_node (sub ++ [name]) x) eqn:E; [|reflexivity].
-      assert (existsb (irregular_node (sub ++ [name])) ch = true) by (apply existsb_exists; eauto).
-      congruence.
 Qed.
 
+(* every loaded file - also one named like `x.md.md`, whose key is `x.md` - is written back to the
+   path it was read from (the former class [irregular], finding F14-double-md, is gone) *)
 Lemma load_regular t l :
-  names_ok t = true -> irregular t = false -> In l (load t) ->
-  key_from_file_name (l_key l) = l_key l /\ note_path (l_key l) = l_path l.
+  names_ok t = true -> In l (load t) -> note_path (l_key l) = l_path l.
 Proof.
-  unfold names_ok, irregular, load. intros Hn Hi. rewrite in_flat_map. intros (x & Hx & Hl).
+  unfold names_ok, load. intros Hn. rewrite in_flat_map. intros (x & Hx & Hl).
   apply (load_node_regular x [] l); auto.
-  - rewrite forallb_forall in Hn. now apply Hn.
-  - destruct (irregular_node [] x) eqn:E; [|reflexivity].
-    assert (existsb (irregular_node []) t = true) by (apply existsb_exists; eauto). congruence.
+  rewrite forallb_forall in Hn. now apply Hn.
+Qed.
+
+(* two loaded files with one key are one file: no note hides another *)
+Lemma load_keys_inj t l l' :
+  names_ok t = true -> In l (load t) -> In l' (load t) -> l_key l = l_key l' -> l_path l = l_path l'.
+Proof.
+  intros Hn Hl Hl' E. rewrite <- (load_regular t l Hn Hl), <- (load_regular t l' Hn Hl'). now rewrite E.
 Qed.
 
 Lemma in_written_keys t k :
-  In k (written_keys t) <-> exists l, In l (load t) /\ k = key_from_file_name (l_key l).
+  In k (written_keys t) <-> exists l, In l (load t) /\ k = l_key l.
 Proof.
-  unfold written_keys. rewrite in_dedup, in_map_iff. split; intros (l & A & B); exists l; auto.
+  unfold written_keys, key_name. rewrite in_dedup, in_map_iff. split; intros (l & A & B); exists l; auto.
 Qed.
 
 (* ---------- the property, on directory trees ------------------------------------------------------ *)
@@ -625,10 +634,10 @@ Section Tree.
   Let s0 := files_of t.
 
   Lemma find_loaded l :
-    names_ok t = true -> irregular t = false -> In l (load t) ->
+    names_ok t = true -> In l (load t) ->
     find (fun k => String.eqb (note_path k) (l_path l)) order = Some (l_key l).
   Proof.
-    intros Hn Hi Hl. destruct (load_regular t l Hn Hi Hl) as [Hk Hp].
+    intros Hn Hl. pose proof (load_regular t l Hn Hl) as Hp.
     destruct (find _ order) as [k|] eqn:F.
     - apply find_some in F as [_ F]. apply String.eqb_eq in F. rewrite <- Hp in F.
       apply note_path_inj in F. now subst.
@@ -640,25 +649,25 @@ Section Tree.
 
   (* complete run, either variant *)
   Theorem paths_and_content v :
-    names_ok t = true -> irregular t = false ->
+    names_ok t = true ->
     let s := run_ops (normalize_ops chunks v order s0) s0 in
     (forall l, In l (load t) ->
        note_path (l_key l) = l_path l /\ In (l_path l, l_content l) s0 /\
        lookup (l_path l) s = Some (export (l_key l))) /\
     (forall q, (forall l, In l (load t) -> l_path l <> q) -> lookup q s = lookup q s0).
   Proof.
-    intros Hn Hi s.
+    intros Hn s.
     assert (FR : forall q, lookup q s = expected export order s0 q)
       by (intros q; apply (full_run export chunks chunks_ok)).
     split.
-    - intros l Hl. destruct (load_regular t l Hn Hi Hl) as [_ Hp].
+    - intros l Hl. pose proof (load_regular t l Hn Hl) as Hp.
       split; [exact Hp|]. split; [now apply load_in_files|].
       rewrite FR. unfold expected. now rewrite find_loaded.
     - intros q Hq. rewrite FR. unfold expected.
       destruct (find _ order) as [k|] eqn:F; [|reflexivity]. exfalso.
       apply find_some in F as [Hk F]. apply String.eqb_eq in F.
       apply order_ok, in_written_keys in Hk as (l & Hl & ->).
-      destruct (load_regular t l Hn Hi Hl) as [Hk Hp]. apply (Hq l Hl). congruence.
+      pose proof (load_regular t l Hn Hl) as Hp. apply (Hq l Hl). congruence.
   Qed.
 
   (* crash after any number of operations of the repaired sequence, or error stop with removal
@@ -699,7 +708,7 @@ Theorem as_found_truncates :
     let chunks := fun _ : string => ["new"] in
     (forall k, sconcat (chunks k) = export k) /\
     (forall k, In k order <-> In k (written_keys t)) /\
-    names_ok t = true /\ irregular t = false /\
+    names_ok t = true /\
     lookup "a.md" (files_of t) = Some "old" /\
     lookup "a.md" (run_ops (firstn n (normalize_ops chunks AsFound order (files_of t))) (files_of t)) = Some "".
 Proof.
@@ -708,19 +717,30 @@ Proof.
   - intros [H|[]]. now left.
 Qed.
 
-(* F14: `x.md.md` is loaded under key `x` and written to `x.md`: a file is created and the note
-   is not rewritten in place *)
-Theorem double_md_misplaced :
-  exists (t : list node) (order : list string),
-    let export := fun _ : string => "new" in
-    let chunks := fun _ : string => ["new"] in
-    (forall k, In k order <-> In k (written_keys t)) /\
-    irregular t = true /\
-    let s := run_ops (normalize_ops chunks AsFound order (files_of t)) (files_of t) in
-    lookup "x.md" (files_of t) = None /\ lookup "x.md" s = Some "new" /\
-    lookup "x.md.md" s = Some "old".
+(* the former witness of F14-double-md, now an ordinary tree: `x.md.md` is loaded under the key `x.md`,
+   next to `x.md` (key `x`), and each is rewritten in place; nothing is created *)
+Theorem double_md_in_place :
+  let t := [File "x.md.md" "old"; File "x.md" "other"] in
+  let export := fun k : string => "new " +++ k in
+  let chunks := fun k : string => ["new "; k] in
+  forall (order : list string) (v : variant),
+    (forall k, In k order <-> In k (written_keys t)) ->
+    names_ok t = true /\ written_keys t = ["x.md"; "x"] /\
+    map (fun l => (l_key l, l_path l)) (load t) = [("x.md", "x.md.md"); ("x", "x.md")] /\
+    let s := run_ops (normalize_ops chunks v order (files_of t)) (files_of t) in
+    lookup "x.md.md" s = Some "new x.md" /\ lookup "x.md" s = Some "new x" /\
+    forall q, q <> "x.md.md" -> q <> "x.md" -> lookup q s = None.
 Proof.
-  exists [File "x.md.md" "old"], ["x"]. cbn zeta. repeat split; try reflexivity.
-  - intros [H|[]]. now left.
-  - intros [H|[]]. now left.
+  intros t export chunks order v Ho.
+  assert (Hc : forall k, sconcat (chunks k) = export k).
+  { intros k. unfold chunks, export. cbn [sconcat]. f_equal. apply append_nil_r. }
+  destruct (paths_and_content export chunks Hc t order Ho v eq_refl) as [A B].
+  split; [reflexivity|]. split; [reflexivity|]. split; [reflexivity|]. cbv zeta. split; [|split].
+  - destruct (A (Loaded "x.md" "x.md.md" "old")) as (_ & _ & X); [now left | exact X].
+  - destruct (A (Loaded "x" "x.md" "other")) as (_ & _ & X); [right; now left | exact X].
+  - intros q H1 H2. rewrite B.
+    + change (lookup q (files_of t))
+        with (if String.eqb "x.md.md" q then Some "old" else if String.eqb "x.md" q then Some "other" else @None bytes).
+      destruct (String.eqb_spec "x.md.md" q); [congruence|]. destruct (String.eqb_spec "x.md" q); [congruence|]. reflexivity.
+    + intros l [<-|[<-|[]]]; cbn; congruence.
 Qed.
